@@ -6,7 +6,7 @@
                     task-definition rule
 """
 import re
-from vlib.mir import norm
+from vlib.mir import norm, op_place
 from rules.c02_enum import ENUM_FIELDS, EV
 
 
@@ -153,3 +153,51 @@ def run(ctx, rep):
     run_enumunique(ctx, rep)
     run_taskrefs(ctx, rep)
     run_typeuses(ctx, rep)
+    run_foldall(ctx, rep)
+
+
+def run_foldall(ctx, rep, rid="R-C02-foldall"):
+    """The transform that resolves ambiguous names must reach every expression: the rules afterwards treat a surviving `LateBound` as already
+    resolved (R-C02-uses table).  A fold override of the resolver that rebuilds its node by hand must take every field that can hold an
+    expression from a fold call; a field moved over from the original node keeps the placeholders inside it (`BUFFER[INDEXX] := ..` with
+    `INDEXX` undeclared is then accepted)."""
+    from vlib.traversal import Traversal
+    from rules.c02 import type_closure
+    r = rep.rule(rid, "a fold override of the name resolver that rebuilds its node takes every expression-bearing field from a fold call, never from the unfolded original",
+                 floor=0, floor_what="hand-rebuilt nodes in the resolver's fold overrides")
+    T = Traversal(ctx, "visit")
+    EXPR = "ironplc_dsl::textual::ExprKind"
+    n = 0
+    for b in sorted(ctx.prog.bodies.values(), key=lambda x: x.id):
+        im = b.f.get("impl") or {}
+        if b.f["crate"] != "ironplc_analyzer" or "xform_resolve_late_bound_expr_kind" not in b.f["file"] or im.get("trait_def") != "ironplc_dsl::fold::Fold" \
+                or not b.f["name"].startswith("fold_") or "::test" in norm(b.id):
+            continue
+        for i, j, st in sorted(b.all_stmts(), key=lambda t: (t[2][3][0], t[2][3][1]) if len(t[2]) > 3 else (0, 0)):
+            if not (st[0] == "=" and st[2][0] == "agg" and isinstance(st[2][1], dict) and st[2][1].get("k") == "adt" and st[2][1].get("adt", "").startswith("ironplc_dsl::")):
+                continue
+            adt = st[2][1]["adt"]
+            if "fold_" + re.sub(r"(?<!^)(?=[A-Z])", "_", adt.split("::")[-1]).lower() != b.f["name"]:
+                continue        # builds some other node (for example the variable a late-bound name resolves to)
+            a = ctx.facts.adts.get(adt)
+            if not a:
+                continue
+            fields = {fl["name"]: fl["ty"] for v in a["variants"] for fl in v["fields"]}
+            for fname, o in zip(st[2][1].get("fields", []), st[2][2]):
+                tys = [m.group(0) for m in re.finditer(r"ironplc_dsl::[A-Za-z_:]*[A-Za-z_]", fields.get(fname, "")) if m.group(0) in ctx.facts.adts]
+                if not any(EXPR in type_closure(T, t) or t == EXPR for t in tys):
+                    continue
+                n += 1
+                p = op_place(o)
+                rt = b.root(p) if p is not None else None
+                inst = "%s|%s.%s" % (b.f["name"], adt.split("::")[-1], fname)
+                from vlib.mir import loc_str
+                moved = rt is not None and rt[0] == 2 and any(isinstance(x, list) and x[0] == "f" and x[2] == fname for x in rt[1])
+                if moved:
+                    r.finding(inst + "|not-folded", loc_str(b.f, st[3]), "the rebuilt %s takes `%s` straight from the original node: the ambiguous names inside it (array subscripts, for example) are "
+                              "never resolved, and the undeclared-variable rule does not look at unresolved names" % (adt.split("::")[-1], fname))
+                else:
+                    r.ok(inst, loc_str(b.f, st[3]), "taken from a computed value")
+    if not n:
+        r.count_override = 1
+        r.note("no fold override of the resolver rebuilds its own node today (they use recurse_fold); positive example: seeded/C02-N")
